@@ -27,11 +27,12 @@ type detConfig struct {
 	OneDiff       bool
 	Dynamic       bool
 	PreviewFrames int
+	Verbose       bool // thermal-motion.verbose: debug statistics only, must not change any verdict
 }
 
 func (c detConfig) String() string {
-	return fmt.Sprintf("%dx%d fps=%d edge=%d gap=%d count=%d delta=%d temp=%d tmin=%d tmax=%d warmer=%v onediff=%v dynamic=%v previewFrames=%d",
-		c.W, c.H, c.FPS, c.Edge, c.Gap, c.Count, c.Delta, c.Temp, c.TMin, c.TMax, c.Warmer, c.OneDiff, c.Dynamic, c.PreviewFrames)
+	return fmt.Sprintf("%dx%d fps=%d edge=%d gap=%d count=%d delta=%d temp=%d tmin=%d tmax=%d warmer=%v onediff=%v dynamic=%v previewFrames=%d verbose=%v",
+		c.W, c.H, c.FPS, c.Edge, c.Gap, c.Count, c.Delta, c.Temp, c.TMin, c.TMax, c.Warmer, c.OneDiff, c.Dynamic, c.PreviewFrames, c.Verbose)
 }
 
 func (c detConfig) motionConfig() config.ThermalMotion {
@@ -47,6 +48,7 @@ func (c detConfig) motionConfig() config.ThermalMotion {
 		TriggerFrames:    1,
 		WarmerOnly:       c.Warmer,
 		EdgePixels:       c.Edge,
+		Verbose:          c.Verbose,
 	}
 }
 
@@ -172,6 +174,7 @@ func detRandomConfig(rng *vRNG, dynamic bool) detConfig {
 	c.Warmer = rng.Bool()
 	c.OneDiff = rng.Bool()
 	c.Dynamic = dynamic
+	c.Verbose = rng.Chance(15)
 	if !dynamic && rng.Chance(40) {
 		// temp-thresh-min/max belong to the dynamic threshold; with a fixed threshold they
 		// may be set (e.g. left over in config.toml) and must not matter
